@@ -561,7 +561,6 @@ func describeVal(v ssa.Value) string {
 	return v.String()
 }
 
-
 // C10.alias: a *Peer handed to a function that retains it (WithNewPeer appends
 // the pointer to the new set) must not point into a variable that is
 // overwritten on the next loop iteration (go.mod < 1.22: one range variable for
@@ -629,13 +628,12 @@ func rootAlloc(v ssa.Value) *ssa.Alloc {
 	return nil
 }
 
-
 // C10.immutable: sets recorded in the peer-set table are shared by reference. Deriving a new set
 // must not write into the backing array of the set it derives from: `x := ps.Peers[:0]; x =
 // append(x, …)` overwrites the parent's visible elements.
 func c10immutable(p *Prog, r *Report) {
 	const rule = "C10.immutable"
-	r.Rule(rule, 2, "no in-place rewrite of another PeerSet's Peers slice (append into a truncated view, element store)")
+	r.Rule(rule, 1, "no in-place rewrite of another PeerSet's Peers slice (append into a truncated view, element store)")
 	fPeers := p.Field(PEER, "PeerSet", "Peers")
 	if fPeers == nil {
 		r.Anchor(rule, "peers.PeerSet.Peers")
@@ -689,9 +687,7 @@ func c10immutable(p *Prog, r *Report) {
 		}
 	}
 	r.Check(len(bad) == 0, rule, "PeerSet.Peers:element-stores", "-", "", "no element of a set's Peers slice is overwritten", "elements of a PeerSet's Peers slice are overwritten: "+strings.Join(bad, ", "))
-	if n == 0 {
-		r.Fail(rule, "derivations", "-", "", "no derivation from a Peers slice found")
-	}
+	r.Note("%s: %d append sites deriving from a Peers slice examined (zero is legitimate: derivation by explicit copy)", rule, n)
 }
 
 func sameConst(a, b ssa.Value) bool {
